@@ -1,6 +1,8 @@
 import CLModel.Model.Registry
 import CLModel.Model.Primary
 import CLModel.Proofs.NoPanic
+import CLModel.Proofs.NoPanicPrimary
+import Driver.PrimaryOps
 /-!
 # C20 — Counterparty-controlled input never panics the library
 
@@ -171,8 +173,82 @@ example : step ringOps (2 : ℤ) .checked 5 false 0 (.revoke 4294967295) = .err 
 /-!
 ## Part 2 — primary protocol (verifier, issuance handshake)
 
-Theorems `no_panic_verify`, `no_panic_sign_credential`, … about `Model/Primary.lean` are added
-here by the owner of that model.
+The RSA side.  `NP x` is `x ≠ panic`; `OpsNP o` says the group operations `pow`/`inv` never
+panic — a theorem for the executable instance the correspondence check runs
+(`driver_group_never_panics`), which is compared with the library's `BigNumber` on every
+presentation, including the repaired zero/negative-exponent and non-invertible cases.
+The theorems quantify over every message a counter-party can send: any lists, any integers,
+any missing map entry.
 -/
+
+open CL.Pri in
+/-- the executable group used by the correspondence check (`Int mod n`) never panics -/
+theorem driver_group_never_panics (n : Int) (rust : Bool) : OpsNP (Drv.znOps n rust) := by
+  have hinv : ∀ a, NP (Drv.modInv a n) := by
+    intro a
+    unfold Drv.modInv
+    split
+    · exact NP_err
+    · simp only
+      split
+      · exact NP_ok _
+      · exact NP_err
+  constructor
+  · intro g k
+    show NP (if n == 0 then _ else if k < 0 then _ else _)
+    refine NP_ite NP_err (NP_ite ?_ (NP_ok _))
+    have := hinv g
+    cases h : Drv.modInv g n with
+    | ok bi => exact NP_ok _
+    | err => exact NP_err
+    | panic => exact absurd h this
+  · intro a; exact hinv a
+
+open CL.Pri in
+/-- `ProofVerifier::verify` never panics on any proof, request set and nonce: sub-proof count
+    mismatch, missing map entries, wrong-length lists, any integers.  The only conditions are
+    the type-level ones (predicate thresholds are `i32`) and that the pairing side's values,
+    which enter the model as a parameter, are not themselves a panic. -/
+theorem verify_never_panics {G : Type} (H : List ByteArray → Int) (m : OvfMode)
+    (common : List String) (creds : List (VerCred G)) (p : Proof G) (nonce : ByteArray)
+    (hs : ∀ sp ∈ p.proofs, SubProofOk sp) (hv : ∀ vc ∈ creds, OpsNP vc.o) :
+    verify H m common creds p nonce ≠ .panic :=
+  verify_NP H m common creds p nonce hs hv
+
+open CL.Pri in
+/-- one predicate sub-proof: `calc_tne` yields exactly `ITERATION + 2` values, so the slicing
+    and the two trailing reads of `_verify_ne_predicate` cannot go out of bounds -/
+theorem verify_ne_predicate_never_panics {G : Type} (o : GroupOps G) (ho : OpsNP o) (m : OvfMode)
+    (pk : PubKey G) (p : NeProof G) (c : Int) (hv : C03.I32 p.pred.value) :
+    verifyNePredicate o m pk p c ≠ .panic :=
+  verifyNePredicate_NP o ho m pk p c hv
+
+open CL.Pri CL.Iss in
+/-- `Issuer::_check_blinded_credential_secrets_correctness_proof` never panics, whatever the
+    holder sends (entries missing from `m_caps`/`r_caps` are errors — repaired d4bad80) -/
+theorem check_blinded_never_panics {G : Type} (o : GroupOps G) (ho : OpsNP o)
+    (H : List ByteArray → Int) (pk : PubKey G) (b : Blinded G) (p : BlindedProof)
+    (nonce : ByteArray) : checkBlinded o H pk b p nonce ≠ .panic :=
+  checkBlinded_NP o ho H pk b p nonce
+
+open CL.Pri CL.Iss in
+/-- `Prover::_check_credential_key_correctness_proof` never panics: `r[key]` is reached only
+    after every name of `xr_cap` was found in the key -/
+theorem check_key_proof_never_panics {G : Type} (o : GroupOps G) (ho : OpsNP o)
+    (H : List ByteArray → Int) (pk : PubKey G) (p : KeyProof) : checkKeyProof o H pk p ≠ .panic :=
+  checkKeyProof_NP o ho H pk p
+
+open CL.Pri CL.Iss in
+/-- `Prover::_check_signature_correctness_proof` never panics on any signature and proof -/
+theorem check_signature_never_panics {G : Type} (o : GroupOps G) (ho : OpsNP o)
+    (H : List ByteArray → Int) (isPrime : Int → Bool) (pk : PubKey G) (sig : Signature G)
+    (vals : KValues) (se c : Int) (nonce : ByteArray) :
+    checkSignatureCorrectness o H isPrime pk sig vals se c nonce ≠ .panic :=
+  checkSignatureCorrectness_NP o ho H isPrime pk sig vals se c nonce
+
+open CL.Pri in
+/-- the indexing form `map[k]` DOES panic on a missing key: the theorems above are not true
+    by construction of the model -/
+example : getOrPanic "a" ([] : List (String × Int)) = .panic := rfl
 
 end CL.C20
